@@ -322,14 +322,21 @@ func c20BytesCase(t *testing.T, out *vfOut, r *vfRand, dir, kind string, lines [
 	for i, key := range tblKeys {
 		titems[i] = "(" + c20Pk1(key) + ", " + vfZ(tbl[key]) + ")"
 	}
+	metaWrap, metaDesc := c20MetaOf(path)
+	if metaDesc != nil {
+		cls["meta-"+c20CurMeta.kind] = true
+	}
 	c := vfCase{
-		Coq: vfApp("C20.CBytes", vfZ(maxEntrySize), vfZ(bufferSize), vfList("bytes", litems),
-			vfList("bytes * Z", titems), vfList("C20.bop", ops)),
+		Coq: metaWrap(vfApp("C20.CBytes", vfZ(maxEntrySize), vfZ(bufferSize), vfList("bytes", litems),
+			vfList("bytes * Z", titems), vfList("C20.bop", ops))),
 		Nontrivial: n > 0,
 		MonitorOK:  len(mon.msgs) == 0,
 		MonitorMsg: strings.Join(mon.msgs, "; "),
 		FindingKey: mon.key,
 		Desc:       map[string]any{"kind": "bytes/" + kind, "lines": n, "size": size, "first_lens": c20Lens(lines, 8), "first_line": c20Head(lines)},
+	}
+	if metaDesc != nil {
+		c.Desc.(map[string]any)["metadata"] = metaDesc
 	}
 	for k := range cls {
 		c.Classes = append(c.Classes, k)
@@ -361,7 +368,7 @@ func c20EncFile(t *testing.T, r *vfRand, n int, ts0 int64, pad func(i int) int) 
 }
 
 // c20BytesCases emits the byte-level cases of a run.
-func c20BytesCases(t *testing.T, out *vfOut, dir string, rnd *vfRand) {
+func c20BytesCases(t *testing.T, out *vfOut, dir string, rnd *vfRand, sched *c20Sched) {
 	const ts0 = int64(1700000000000000000)
 	nopad := func(int) int { return 0 }
 
@@ -428,7 +435,9 @@ func c20BytesCases(t *testing.T, out *vfOut, dir string, rnd *vfRand) {
 	// ---- random
 	nSmall := out.Scale(24, 300)
 	for i := 0; i < nSmall; i++ {
+		sched.light()
 		r := rnd.Fork(uint64(4000000 + i))
+		c20DrawMeta(r, 1, 6)
 		n := int(r.Range(0, 14))
 		if r.Chance(1, 6) {
 			n = r.Intn(3)
@@ -441,8 +450,10 @@ func c20BytesCases(t *testing.T, out *vfOut, dir string, rnd *vfRand) {
 		})
 		c20BytesCase(t, out, r, dir, "enc-random", lines, true, out.Scale(12, 30), nil)
 	}
+	c20CurMeta = c20MetaPolicy{}
 	nLong := out.Scale(1, 24)
 	for i := 0; i < nLong; i++ {
+		sched.light()
 		r := rnd.Fork(uint64(4100000 + i))
 		n := int(r.Range(3, int64(out.Scale(4, 7))))
 		lines := c20EncFile(t, r, n, ts0, func(int) int {
